@@ -4,7 +4,7 @@ import time
 
 from props import asm_emit as E
 from props import C04 as _c04
-from translators import py_kernels
+from translators import py_kernels, c03_geometry
 
 ID = "C03"
 PROP_FILE = "props/C03.v"
@@ -13,6 +13,8 @@ TRUSTED = [
     "hand model coq/theories/AssemblyA/Dense.v (as in C04) + theories/AssemblyA/CorrEquiv.v: the hypotheses of "
     "C03_relabel_scatter are checked as booleans on the arrays the library produced for a grid and for its transformed copy, "
     "the model is evaluated on both, and the conclusion is checked on the two matrices the library assembled",
+    "translators/c03_geometry.py (AST of Grid._compute_geometric_quantities: absolute vertex coordinates enter only the "
+    "centroids and the vertex differences; fails closed)",
     "translators/py_kernels.py (all scalar kernels regenerated from core/numba_kernels.py for the kernel theorems)",
     "surrogate-kernel device and .py_func execution of the Numba loops in the correspondence",
     "Coq primitive 63-bit integers through Bignums BigZ (model evaluation only)",
@@ -31,6 +33,7 @@ ASSUMPTIONS = [
 
 def regen(ctx):
     ctx.translate(py_kernels.numba_kernels)
+    ctx.translate(c03_geometry.geometry_facts)
     for f in ("bempp_cl/api/grid/grid.py", "bempp_cl/core/singular_assembler.py", "bempp_cl/core/dense_assembler.py",
               "bempp_cl/core/numba_assemblers.py", "bempp_cl/api/integration/duffy_galerkin.py",
               "bempp_cl/core/numba_kernels.py", "bempp_cl/api/space/space.py", "bempp_cl/api/space/scalar_spaces.py",
@@ -60,7 +63,7 @@ def correspond(ctx):
     t0 = time.time()
     strength = "thorough" if ctx.tier == "thorough" else "quick"
     both = ctx.run_impl("c03_impl.py", {"mode": "both", "strength": strength,
-                                        "budget": 30 if strength == "quick" else 1e9}, timeout=5400)
+                                        "budget": 15 if strength == "quick" else 1e9}, timeout=5400)
     ctx.note("implementation process wall %.0fs" % (time.time() - t0))
     if both is None:
         return
@@ -148,7 +151,7 @@ META = {
                   "assembled matrix is the permuted sign-changed matrix (regular part unconditionally, singular part under the stated "
                   "hypothesis on the singular local values); translation invariance of the assembled matrix for every translation-"
                   "invariant kernel; Jacobians/normals/integration elements depend on vertex differences only, are invariant under "
-                  "orthogonal maps and scale with s^4; all 18 scalar kernels of numba_kernels.py (Laplace, Helmholtz with complex k, "
+                  "orthogonal maps and scale with s^4 (and the source computes them from differences: regenerated fact);  all 18 scalar kernels of numba_kernels.py (Laplace, Helmholtz with complex k, "
                   "modified Helmholtz; regular and singular variants) are invariant under rigid motions and homogeneous of degree "
                   "-1/-2 with the wavenumber scaled by 1/s.",
     "level_note": "Trusted: Coq kernel, three real-number axioms of the standard library (kernel theorems), hand model + correspondence "
